@@ -31,6 +31,10 @@ def plan(tier, seed):
                       "cfg_over": {"max_T": 4 if tier == "quick" else 6}, "force": force,
                       "force_T2": True, "vf": ["ref", "random"][i % 2],
                       "agents": 32 if tier == "quick" else 256, "env": {"VERIF_X64": "1"}})
+    # many categories + labels given in a narrow integer dtype (pandas categorical codes are int8)
+    for i in range(6 if tier == "quick" else 60):
+        cases.append({"index": i, "seed": [seed, 32, i], "template": "many_categories", "cfg": "quick", "force_T2": True, "vf": "ref",
+                      "init_dtype": ["int8", "uint8", "int16"][i % 3], "agents": 200 if tier == "quick" else 600, "env": {"VERIF_X64": "1"}})
     return cases
 
 
@@ -52,6 +56,11 @@ def run_case(case):
     res = {"counters": {}, "maxima": {}, "violations": [], "features": {}, "nontrivial": False}
     N = case["agents"]
     init = gen.gen_initial_states(rng, ref, N, int_cont=0.4 if case["index"] % 3 == 0 else 0.0)
+    if case.get("init_dtype"):
+        import numpy as _np
+
+        init = {k: (_np.asarray(v).astype(case["init_dtype"]) if ref.is_disc(k) else v) for k, v in init.items()}
+        res["counters"]["narrow_int_initial_state_panels"] = 1
     vf = simcheck.vf_arrays(ref, params, case["vf"], rng, refsol=refsol)
     try:
         model = dsl.build_lcm_model(desc)
@@ -65,7 +74,7 @@ def run_case(case):
     res["violations"] += j["C03"]
     if j["C13"] and not j["counters"].get("rows_total"):
         res["violations"] += [{"key": "panel_unusable:" + v["key"], "what": v["what"]} for v in j["C13"]]
-    res["counters"] = dict(j["counters"])
+    res["counters"] = {**res["counters"], **dict(j["counters"])}
     res["counters"]["models_simulated"] = 1
     res["status"] = "violated" if res["violations"] else "held"
     f = {k: bool(v) for k, v in realised.items()}
